@@ -101,8 +101,26 @@ Definition eff_status (tk : task) : status := if seqb (t_st tk) Wait then t_wait
 Fixpoint vget (v : list (nat * nat)) (t : nat) : nat :=
   match v with [] => 0 | (k, x) :: r => if Nat.eqb k t then x else vget r t end.
 
-(* Change.isTaskWaiting; the loop over deps is the inner fix; fuel bounds the recursion depth (the memo makes
-   every task enter the computing state at most once, so depth <= number of tasks) *)
+(* the loop over deps of Change.isTaskWaiting; [rec] is the recursive call isTaskWaiting(visited, wt, deps of wt) *)
+Fixpoint tw_loop (rec : list (nat * nat) -> nat -> list nat -> bool * list (nat * nat)) (l : list task)
+                 (ds : list nat) (w : bool) (v : list (nat * nat)) : bool * list (nat * nat) :=
+  match ds with
+  | [] => (w, v)
+  | d :: r =>
+    let tk := nth d l dummy in
+    match t_st tk with
+    | Wait => tw_loop rec l r true v
+    | Done | Undone | Error | Hold => tw_loop rec l r w v
+    | Do => let '(w', v') := rec v d (t_waits tk) in
+            if w' then tw_loop rec l r true v' else (false, v')
+    | Undo => let '(w', v') := rec v d (t_halts tk) in
+              if w' then tw_loop rec l r true v' else (false, v')
+    | _ => (false, v)
+    end
+  end.
+
+(* Change.isTaskWaiting; fuel bounds the recursion depth (the memo makes every task enter the computing state at
+   most once, so depth <= number of tasks) *)
 Fixpoint task_waiting (fuel : nat) (l : list task) (v : list (nat * nat)) (t : nat) (deps : list nat)
   : bool * list (nat * nat) :=
   match fuel with
@@ -113,23 +131,7 @@ Fixpoint task_waiting (fuel : nat) (l : list task) (v : list (nat * nat)) (t : n
     | 2 => (false, v)
     | 3 => (true, v)
     | _ =>
-      let v1 := (t, 1) :: v in
-      let fix loop (ds : list nat) (w : bool) (v : list (nat * nat)) : bool * list (nat * nat) :=
-        match ds with
-        | [] => (w, v)
-        | d :: r =>
-          let tk := nth d l dummy in
-          match t_st tk with
-          | Wait => loop r true v
-          | Done | Undone | Error | Hold => loop r w v
-          | Do => let '(w', v') := task_waiting f l v d (t_waits tk) in
-                  if w' then loop r true v' else (false, v')
-          | Undo => let '(w', v') := task_waiting f l v d (t_halts tk) in
-                    if w' then loop r true v' else (false, v')
-          | _ => (false, v)
-          end
-        end in
-      let '(w, v2) := loop deps false v1 in
+      let '(w, v2) := tw_loop (task_waiting f l) l deps false ((t, 1) :: v) in
       (w, (t, if w then 3 else 2) :: v2)
     end
   end.
